@@ -252,9 +252,18 @@ func runPPRecv(c ppCase, idx int) (map[string]any, error) {
 	compiled := rl.Compile(zap.NewNop(), time.Hour, layer4.HandlerFunc(func(cx *layer4.Connection) error { return nil }))
 	cx := layer4.WrapConnection(sc, make([]byte, 0, 2048), zap.NewNop())
 	cx.SetVar(vh.RecKey, rec)
-	herr := compiled.Handle(cx)
+	var herr error
+	panicked := ""
+	func() {
+		defer func() {
+			if r := recover(); r != nil {
+				panicked = fmt.Sprint(r)
+			}
+		}()
+		herr = compiled.Handle(cx)
+	}()
 	obs := map[string]any{"start": -1, "hdrlen": len(hdr), "slen": len(stream), "got": 0, "intact": false,
-		"remote": "none", "local": "none", "phRemote": "none", "phLocal": "none", "ripMatch": false}
+		"remote": "none", "local": "none", "phRemote": "none", "phLocal": "none", "ripMatch": false, "panic": panicked}
 	if herr != nil {
 		obs["err"] = herr.Error()
 	}
